@@ -380,7 +380,7 @@ def readHeader (file : List Nat) : Except Err (Header × List Nat) :=
     match readExact 2 r0 with
     | .error e => .error e
     | .ok (ver, r1) =>
-      let major := ver.head!
+      let major := ver.headD 0
       let lenBytes := if major = 1 then some 2 else if major = 2 || major = 3 then some 4 else none
       match lenBytes with
       | none => .error .version
@@ -452,7 +452,7 @@ def encodeElem (dt : DataType) (x : Nat) : List Nat := toLE dt.itemSize x
 /-- `Element::from_le_bytes` on an `ITEM_SIZE` chunk; `bool` is `bytes[0] != 0`. -/
 def decodeElem (dt : DataType) (chunk : List Nat) : Nat :=
   match dt with
-  | .bool => if chunk.head! ≠ 0 then 1 else 0
+  | .bool => if chunk.headD 0 ≠ 0 then 1 else 0
   | _ => fromLE chunk
 
 /-- `chunks_exact(w)` with fuel (= number of chunks). -/
@@ -460,7 +460,10 @@ def chunks (w : Nat) : Nat → List Nat → List (List Nat)
   | 0, _ => []
   | n + 1, l => l.take w :: chunks w n (l.drop w)
 
-def prod (l : List Nat) : Nat := l.foldl (· * ·) 1
+/-- Product of a dimension list (`shape.iter().product()`). -/
+def prod : List Nat → Nat
+  | [] => 1
+  | d :: ds => d * prod ds
 
 /-- `isize::MAX + 1`: tensors are limited to `isize::MAX` elements. -/
 def isizeLimit : Nat := 2 ^ 63
